@@ -1190,6 +1190,10 @@ def sc_from_nested(P):
     case('dict of scalars, dims', d1, dims=['u'])
     case('dict of scalars, dims and labels', d1, dims=['u'], labels=[['p', 'q']])
     case('dict of dicts', d2)
+    # keys that were not inserted in sorted order: the labels follow the dict's own order, like the rows do
+    case('dict of scalars, keys not in sorted order', {'b': 2, 'a': 1, 'c': 3})
+    case('dict of dicts, keys not in sorted order', {'b': {2: 22, 1: 11}, 'a': {2: 222, 1: 111}})
+    case('dict of dicts, keys not in sorted order, dims', {'b': {2: 22, 1: 11}, 'a': {2: 222, 1: 111}}, dims=['u', 'v'])
     case('dict of dicts, dims', d2, dims=['u', 'v'])
     case('dict of dicts, dims and labels', d2, dims=['u', 'v'], labels=[['p', 'q'], [7, 8, 9]])
     case('dict of dicts, only the outer labels', d2, dims=['u', 'v'], labels=[['p', 'q']])
@@ -1998,6 +2002,30 @@ def sc_get_axes(P):
     return out
 
 
+def sc_align_dims(P):
+    """align_dims(*arrays): every array reshaped onto the ordered union of the dimension names - the first operand's in their order, then the new ones; untouched when the
+    ordered dims already coincide"""
+    out = []
+
+    def arr(name, dims):
+        a = mk_array(P, name, dims, tuple(2 + i for i, _ in enumerate(dims)), overrides=std_overrides(P))
+        a.methods['reshape'] = lambda itp, o, aa, k: Sym('call', '%s.reshape' % o.name, tuple(list(x) if isinstance(x, (list, tuple)) else x for x in aa), dict(k))
+        return a
+
+    def case(label, *dimss):
+        out.append((label, lambda: ([arr(chr(65 + i), d) for i, d in enumerate(dimss)], {}, {'overrides': std_overrides(P)})))
+    case('same dimensions', ('x', 'y'), ('x', 'y'))
+    case('same dimensions in another order', ('x', 'y'), ('y', 'x'))
+    case('second operand has more dimensions, shared one last', ('x',), ('s', 't', 'x'))
+    case('second operand has more dimensions, shared one first', ('x',), ('x', 's', 't'))
+    case('first operand has more dimensions', ('s', 't', 'x'), ('x',))
+    case('disjoint dimensions', ('x',), ('y',))
+    case('0-d and 2-d', (), ('x', 'y'))
+    case('three operands', ('x',), ('y', 'x'), ('z', 'y'))
+    case('one operand', ('x', 'y'))
+    return out
+
+
 def sc_axes_from(P):
     """Axes.from_shape / from_arrays / from_dict called directly"""
     out = []
@@ -2031,6 +2059,7 @@ SCENARIOS = {
     'dimarray.core.align._get_aligned_axes': (('C06', 'C12'), sc_aligned_axes),
     'dimarray.core.align.reindex_like': ((), sc_reindex_like),          # the decision procedure of C07-R4
     'dimarray.core.align._get_axes': (('C10', 'C04'), sc_get_axes),       # (not C12: stack() compares every input axis with the common axes itself)
+    'dimarray.core.align.align_dims': (('C04', 'C10'), sc_align_dims),
     'dimarray.core.align.stack': (('C12', 'C05'), sc_stack),
     'dimarray.core.align.concatenate': (('C12',), sc_concatenate),
     'dimarray.core.reshape.transpose': (('C10', 'C04', 'C12'), sc_transpose),
@@ -2040,7 +2069,7 @@ SCENARIOS = {
     'dimarray.core.reshape.newaxis': (('C10',), sc_newaxis),
     'dimarray.core.reshape.repeat': (('C10',), sc_repeat),
     'dimarray.core.reshape.broadcast': (('C10', 'C04'), sc_broadcast),
-    'dimarray.core.reshape.flatten': (('C11', 'C08'), sc_flatten),
+    'dimarray.core.reshape.flatten': (('C11', 'C08', 'C05'), sc_flatten),
     'dimarray.core.reshape.unflatten': (('C11',), sc_unflatten),
     'dimarray.core.reshape.reshape': (('C11', 'C10', 'C04'), sc_reshape),
 }
